@@ -169,8 +169,14 @@ def gen_cases(rs, tier, routines=ROUTINES):
             for _ in range(nrand * 2):
                 n = int(rs.randint(4, 10)); dens = float(rs.choice([.15, .3, .5, .7, .85]))
                 A = rand_graph(rs, n, dens, False)
-                if rs.rand() < .2 and n > 4:
+                # structured corners: hubs (full nodes) and isolated nodes, in sparse and in dense (complemented) graphs
+                kind = rs.randint(6)
+                if kind == 0 and n > 4:
                     v = rs.randint(n); A[v, :] = 1; A[:, v] = 1; A[v, v] = 0
+                elif kind == 1 and n > 4:
+                    v = rs.randint(n); A[v, :] = 0; A[:, v] = 0
+                elif kind == 2 and n > 5:
+                    v, w = rs.choice(n, 2, replace=False); A[v, :] = 1; A[:, v] = 1; A[v, v] = 0; A[w, :] = 0; A[:, w] = 0
                 cases.append({'routine': r, 'A': A.tolist(), 'itr': 1, 'alpha': float(rs.choice([0, .5, 1.0, 1.0])), 'seed': int(rs.randint(2 ** 31))})
             continue
         # exhaustive small graphs (a slice of them in the quick tier)
@@ -191,11 +197,17 @@ def gen_cases(rs, tier, routines=ROUTINES):
                 cases.append(c)
         for _ in range(nrand):
             n = int(rs.randint(5, 11 if not big else 15))
-            wmax = int(rs.choice([1, 9]))
+            wmax = int(rs.choice([1, 9, 2]))
             if r in CONN or rs.rand() < .3:
                 A = spanning_plus(rs, n, int(rs.randint(0, n)), not und, wmax)
             else:
                 A = rand_graph(rs, n, float(rs.choice([.15, .3, .5, .8])), not und, wmax)
+            if wmax == 2:
+                # signed small-integer weights (equal magnitudes of opposite sign): "weighted" includes signed
+                S = rs.choice([-1.0, 1.0], size=(n, n))
+                if und:
+                    S = np.triu(S, 1); S = S + S.T
+                A = A * S
             if not two_disjoint_edges(A, und):
                 continue
             c = {'routine': r, 'A': A.tolist(), 'itr': int(rs.randint(0, 4)), 'seed': int(rs.randint(2 ** 31))}
